@@ -32,7 +32,7 @@ ROUTES = ['kwargs', 'kwargs_reversed', 'kwargs_shuffled', 'parse_dict_shuffled',
           'parse_observable', 'memory_store']
 # frozen per-type lists of id-contributing properties (STIX 2.1, section "ID Contributing Properties" of each SCO)
 CONTRIB = {t: v[2] for t, v in C.SCO21.items()}
-CONTRIB['x-sim-obs-a'] = ['alpha', 'beta']
+CONTRIB['x-sim-obs-a'] = ['alpha', 'beta', 'flag']
 CONTRIB['x-sim-obs-b'] = ['name', 'meta']
 CONTRIB['x-sim-obs-c'] = ['seen_ms', 'seen_any', 'label']
 TS_POOL = ['2016-01-01T00:00:00Z', '2016-06-19T14:20:40.5Z', '2038-01-19T03:14:08.000001Z', '1970-01-01T00:00:00Z', '2016-01-01T00:00:00.123Z']
@@ -90,7 +90,7 @@ def gen_item(rng, n):
             nc['display_name'] = pick_str(rng)
     elif t == 'email-message':
         nc['is_multipart'] = False
-        for k, v in (('from_ref', ref('email-addr')), ('subject', pick_str(rng)), ('body', pick_str(rng))):
+        for k, v in (('from_ref', ref('email-addr')), ('subject', rng.choice([pick_str(rng), pick_str(rng), ''])), ('body', pick_str(rng))):
             if some():
                 c[k] = v
         if some():
@@ -157,17 +157,38 @@ def gen_item(rng, n):
         nc['note'] = pick_str(rng)
     elif t == 'x-sim-obs-a':
         if some():
-            c['alpha'] = pick_str(rng)
+            c['alpha'] = rng.choice([pick_str(rng), pick_str(rng), ''])
         if some():
             c['beta'] = rng.choice([0, -1, 42, 2 ** 40])
+        if rng.random() < 0.4:
+            c['flag'] = rng.choice([False, False, True])
         nc['gamma'] = pick_str(rng)
     else:
         c['name'] = pick_str(rng) or 'b'
         if some():
             c['meta'] = {'k1': pick_str(rng), 'zz': 'v', 'Aa': 'w', 'a_b': 'x', 'a-b': 'é'}
         nc['note'] = pick_str(rng)
-    c = {k: v for k, v in c.items() if v != '' and v != [] and v != {}}
+    # an empty string is a present value (it contributes as ""), except where the type refuses it
+    c = {k: v for k, v in c.items() if (v != '' or (t, k) in (('email-message', 'subject'), ('email-message', 'body'), ('x-sim-obs-a', 'alpha'),
+                                                              ('software', 'vendor'), ('software', 'version')))
+         and v != [] and v != {}}
     return {'type': t, 'c': c, 'nc': nc}
+
+
+HASH_SPELLINGS = {'MD5': ['md5', 'Md5'], 'SHA-1': ['sha1', 'sha-1', 'SHA1'], 'SHA-256': ['sha256', 'sha-256', 'SHA256'],
+                  'SHA-512': ['sha512', 'SHA512'], 'SHA3-256': ['sha3-256', 'SHA3256'], 'SSDEEP': ['ssdeep'], 'SHA3-512': ['sha3-512'], 'TLSH': ['tlsh']}
+
+
+def respell_hashes(props, n):
+    """The same hashes under other recognised spellings of the algorithm names (the id must not depend on them)."""
+    if not isinstance(props.get('hashes'), dict):
+        return props
+    out = dict(props)
+    out['hashes'] = {}
+    for i, (k, v) in enumerate(props['hashes'].items()):
+        alts = HASH_SPELLINGS.get(k, [k])
+        out['hashes'][alts[(n + i) % len(alts)]] = v
+    return out
 
 
 def expected_canonical(item):
@@ -211,7 +232,7 @@ class C06(Profile):
     wall_cap = {'quick': 900, 'thorough': 5 * 3600}
     probes = ['no_contributing_property_v4', 'hash_preference_applied', 'non_preferred_single_hash', 'non_preferred_several_hashes_first_wins', 'extension_with_float', 'custom_observable',
               'equal_contrib_different_noncontrib', 'near_miss_different_id', 'string_needing_escape', 'astral_or_bmp_boundary',
-              'route_bundle_member', 'route_memory_store', 'uuid4_stream_differs']
+              'route_bundle_member', 'route_memory_store', 'uuid4_stream_differs', 'hash_names_respelled', 'falsy_contributing_value']
     rule = ('plans: 6-14 items (a 2.1 observable type incl. two registered custom observables, contributing and non-contributing values with '
             'JSON-escape-class strings, astral characters, integers, timestamps, reference lists, hash dictionaries, nested extensions with floats), '
             'each minted through 4-10 routes x uuid4 stream x clock x argument/dictionary order; runs 4k..4k+3 hold the same items and execute under '
@@ -248,6 +269,8 @@ class C06(Profile):
                 v = near['c'][k]
                 if k.endswith('_ref') or k in ('payload_bin', 'cpe', 'account_type', 'value', 'start', 'end', 'serial_number', 'seen_ms', 'seen_any'):
                     near = None
+                elif isinstance(v, bool):
+                    near['c'][k] = not v
                 elif isinstance(v, str):
                     near['c'][k] = v + 'x'
                 elif isinstance(v, int):
@@ -269,11 +292,12 @@ class C06(Profile):
     # ------------------------------------------------------------------ execution
     def execute(self, plan, world):
         import stix2
-        from stix2.properties import DictionaryProperty, IntegerProperty, StringProperty
+        from stix2.properties import BooleanProperty, DictionaryProperty, IntegerProperty, StringProperty
         self.s = s = stix2
 
-        @s.v21.CustomObservable('x-sim-obs-a', [('alpha', StringProperty()), ('beta', IntegerProperty()), ('gamma', StringProperty())],
-                                id_contrib_props=['alpha', 'beta'])
+        @s.v21.CustomObservable('x-sim-obs-a', [('alpha', StringProperty()), ('beta', IntegerProperty()), ('flag', BooleanProperty()),
+                                                ('gamma', StringProperty())],
+                                id_contrib_props=['alpha', 'beta', 'flag'])
         class ObsA(object):
             pass
 
@@ -314,6 +338,9 @@ class C06(Profile):
         props = dict(it['c'])
         props.update(it['nc'])
         props = json.loads(json.dumps(props))
+        if op.get('perm', 0) % 5 == 0 and 'hashes' in props:
+            props = respell_hashes(props, op['perm'])
+            world.probe('hash_names_respelled')
         d = dict(type=t, spec_version='2.1', **props)
         cls = s.registry.class_for_type(t, '2.1', 'observables')
         route = op['route']
@@ -382,6 +409,8 @@ class C06(Profile):
             world.probe('astral_or_bmp_boundary')
         if t.startswith('x-sim'):
             world.probe('custom_observable')
+        if any(v in (0, '', False) and not isinstance(v, float) for v in it['c'].values() if not isinstance(v, (dict, list))):
+            world.probe('falsy_contributing_value')
         if 'hashes' in it['c']:
             world.probe('hash_preference_applied' if any(a in PREF for a in it['c']['hashes']) else
                         'non_preferred_single_hash' if len(it['c']['hashes']) == 1 else 'non_preferred_several_hashes_first_wins')
